@@ -15,16 +15,21 @@ Cfgs == {<<TRUE, FALSE>>, <<FALSE, TRUE>>, <<FALSE, FALSE>>, <<TRUE, TRUE>>}
 Ops == {<<"gwreconf", "L", "", c[1], c[2]>> : c \in Cfgs} \cup {<<"newchan", "L", "d", FALSE, FALSE>>}
        \cup {<<"chreconf", s, c, g[1], g[2]>> : s \in {"L", "R"}, c \in {"c", "d"}, g \in Cfgs}
        \cup {<<"probe", s, c, FALSE, FALSE>> : s \in {"L", "R"}, c \in {"c", "d"}}
+       \cup {<<"setcb", s, c, FALSE, FALSE>> : s \in {"L", "R"}, c \in {"c", "d"}} \cup {<<"drop", "L", c, FALSE, FALSE>> : c \in {"c", "d"}}
 Can(st, op) ==
   CASE op[1] = "gwreconf" -> TRUE
     [] op[1] = "newchan" -> S!CanNewChan(st)
     [] op[1] = "chreconf" -> S!CanChReconf(st, op[2], op[3])
     [] op[1] = "probe" -> S!CanProbe(st, op[2], op[3])
+    [] op[1] = "setcb" -> S!CanSetCb(st, op[2], op[3])
+    [] op[1] = "drop" -> S!CanDrop(st, op[3])
     [] OTHER -> FALSE
 Apply(st, op) ==
   CASE op[1] = "gwreconf" -> S!GwReconf(st, <<op[4], op[5]>>)
     [] op[1] = "newchan" -> S!NewChan(st)
     [] op[1] = "chreconf" -> S!ChReconf(st, op[2], op[3], <<op[4], op[5]>>)
+    [] op[1] = "setcb" -> S!SetCb(st, op[2], op[3])
+    [] op[1] = "drop" -> S!Drop(st, op[3])
     [] OTHER -> st
 
 RECURSIVE Words(_, _, _, _)
@@ -32,7 +37,7 @@ RECURSIVE Words(_, _, _, _)
 Words(st, w, n, informative) ==
   (IF informative THEN {w} ELSE {}) \cup
   (IF n = 0 THEN {} ELSE UNION {Words(Apply(st, op), Append(w, op), n - 1, op[1] = "probe") : op \in {o \in Ops : Can(st, o) /\ (n > 1 \/ o[1] = "probe")}})
-Depth == IF IOEnv.DEPTH = "4" THEN 4 ELSE IF IOEnv.DEPTH = "2" THEN 2 ELSE 3
+Depth == IF IOEnv.DEPTH = "4" THEN 4 ELSE IF IOEnv.DEPTH = "2" THEN 2 ELSE IF IOEnv.DEPTH = "5" THEN 5 ELSE 3
 ASSUME PrintT(<<"words", IF IOEnv.WHAT = "enum" THEN Words(S!Init0, <<>>, Depth, FALSE) ELSE {}>>)
 
 Expected(cfg) == Ser!LoadsInternal(Probe, [p2as3 |-> cfg[1], p3as2 |-> cfg[2], factory |-> FALSE])
